@@ -348,6 +348,27 @@ def r01_6(rep, M, rid):
         return
     rep.ok(rid, "ValueError is raised for a zero-length cell vector along a periodic direction")
     n, r, conds = good[0]
+    # the vector tested is the cell *row* with the index of the pbc flag tested next to it (ase cells hold the basis vectors as rows)
+    ztests = [t for t, pol in conds if isinstance(t, ast.If) and (".any()" in norm(t.test) or "norm" in norm(t.test) or "== 0" in norm(t.test))]
+    ptests = [t for t, pol in conds if isinstance(t, ast.If) and "pbc" in norm(t.test)]
+    for zt in ztests:
+        subs = [x for x in ast.walk(zt.test) if isinstance(x, ast.Subscript)]
+        pidx = {norm(x.slice) for pt in ptests for x in ast.walk(pt.test) if isinstance(x, ast.Subscript)}
+        for sb in subs:
+            sl0 = sb.slice
+            if isinstance(sl0, ast.Tuple) and len(sl0.elts) == 2:
+                first, second = sl0.elts
+                if isinstance(first, ast.Slice) and not isinstance(second, ast.Slice):
+                    rep.violation(rid, f"get_clusters: zero-vector test `{norm(zt.test)}`", f"`{norm(sb)}` is a cartesian *column* of the cell, not the basis vector {norm(second)} "
+                                  "(rows): in a skewed cell a zero basis vector is not detected (singular matrix later) and a zero column is mistaken for one", M.where(GC, zt))
+                    continue
+                idx = norm(first)
+            else:
+                idx = norm(sl0)
+            if pidx and idx not in pidx:
+                rep.violation(rid, f"get_clusters: zero-vector test `{norm(zt.test)}`", f"tests basis vector `{idx}` but the periodicity flag of `{sorted(pidx)}`", M.where(GC, zt))
+            else:
+                rep.ok(rid, f"the zero test reads basis row `{idx}`, the same index as the periodicity flag")
     loops = [t for t, pol in conds if isinstance(t, ast.For) and pol is True]
     guard_node = cfg.node_of[id(loops[0])] if loops else n
     need = []
@@ -720,17 +741,23 @@ def r01_14(rep, M, rid):
     conds = fl.cfg.branch_conditions(at)
     nonper = any(isinstance(c, ast.If) and pol is True and isinstance(c.test, ast.UnaryOp) and "pbc" in norm(c.test) for c, pol in conds)
     names = sorted({x.id for x in ast.walk(t.test) if isinstance(x, ast.Name)})
-    # which name is the maximum / minimum of the scaled coordinate
-    role = {}
+    # every name of the test must be an arithmetic expression over <coords>.max() / <coords>.min() of one scaled coordinate column
+    defs = {}
     for nm in names:
-        defs = [d for d in ast.walk(fn) if isinstance(d, ast.Assign) and norm(d.targets[0]) == nm]
-        if len(defs) == 1 and isinstance(defs[0].value, ast.Call) and isinstance(defs[0].value.func, ast.Attribute) and defs[0].value.func.attr in ("max", "min"):
-            role[nm] = defs[0].value.func.attr
-    if set(role.values()) != {"max", "min"} or len(role) != len(names):
-        raise AnalysisError(f"get_clusters: enlargement test `{norm(t.test)}` is not a predicate over the min/max scaled coordinate")
-    mx = next(k for k, v in role.items() if v == "max")
-    mn = next(k for k, v in role.items() if v == "min")
-    F = Folder(what="cell enlargement test")
+        ds = [d for d in ast.walk(fn) if isinstance(d, ast.Assign) and norm(d.targets[0]) == nm]
+        if len(ds) != 1:
+            raise AnalysisError(f"get_clusters: enlargement test `{norm(t.test)}`: `{nm}` has no single definition")
+        defs[nm] = ds[0].value
+    seen_red = set()
+
+    def hook(e, env, folder):
+        if isinstance(e, ast.Call) and isinstance(e.func, ast.Attribute) and e.func.attr in ("max", "min") and not e.args:
+            seen_red.add(e.func.attr)
+            return env["__hi"] if e.func.attr == "max" else env["__lo"]
+        if isinstance(e, ast.Name) and e.id in defs and e.id not in env:
+            return folder.ev(defs[e.id], env)
+        return NotImplemented
+    F = Folder({"minmax": hook}, what="cell enlargement test")
     grid = [-1.5, -1.2, -0.5, -0.01, 0.0, 0.3, 0.7, 1.0, 1.01, 1.2, 1.5, 2.5]
     witness = None
     for lo in grid:
@@ -738,11 +765,13 @@ def r01_14(rep, M, rid):
             if lo > hi:
                 continue
             outside = hi > 1 or lo < 0
-            if outside and not F.ev(t.test, {mx: hi, mn: lo}):
+            if outside and not F.ev(t.test, {"__hi": hi, "__lo": lo}):
                 witness = (lo, hi)
                 break
         if witness:
             break
+    if not seen_red:
+        raise AnalysisError(f"get_clusters: enlargement test `{norm(t.test)}` is not a predicate over the min/max scaled coordinate")
     if witness:
         rep.violation(rid, f"get_clusters: enlargement test `{norm(t.test)}`", f"with scaled coordinates spanning [{witness[0]}, {witness[1]}] along a "
                       "non-periodic axis (atoms outside the cell) the test is false: the cell is not enlarged and re-centred, the atoms stay outside "
@@ -932,6 +961,8 @@ def run(rep, ctx):
         from .. import handlers
         handlers.check(rep, M, "R01.15", M.reachable([GC]))
         handlers.check_raises(rep, M, "R01.15", M.reachable([GC]), GC.split(".")[-1])
+        from . import c04 as _c04
+        _c04.builders_total(rep, M, "R01.15")
     rep.rule("R01.16", "the geometry helpers the clustering rests on (get_distances, displacement-tensor wrapper, get_radii, bond clustering) satisfy their own rules (shared with C10/C19)")
     with rep.guard("R01.16"):
         from . import shared as _sh
